@@ -1049,6 +1049,69 @@ func (w *world) equivocationScript() {
 	w.take(3, "P", 2)
 }
 
+// directedWorld: four members of weight 1, rotation 0 (the leader of view v at height 1 is member v mod 4), the given
+// Byzantine set; the other members are real nodes.
+func directedWorld(r *rand.Rand, rep *Report, seed int64, byz ...uint64) *world {
+	w := &world{r: r, rep: rep, kr: newKeyring(seed), byz: map[uint64]bool{}, byId: map[uint64]*simNode{}, signed: map[string]bool{},
+		proposedBy: map[uint64]uint64{}, validatedBy: map[uint64][]uint64{}, failCommit: map[uint64][]uint64{}, excl: map[uint64][]uint64{}, chain: map[uint64]*aBlock{}, held: map[uint64]bool{}}
+	for _, b := range byz {
+		w.byz[b] = true
+	}
+	w.codec = newCodec(w.kr)
+	w.n, w.weights, w.rot = 4, []uint64{1, 1, 1, 1}, 0
+	for i := uint64(0); i < 4; i++ {
+		if w.byz[i] {
+			continue
+		}
+		n := w.newNode(i)
+		w.honest = append(w.honest, n)
+		w.byId[i] = n
+	}
+	return w
+}
+
+// splitProofScript: the Byzantine leader of view 0 proposes Y, the correct members PREPARE it; it then votes for view 1
+// with a "prepared proof" whose PREPREPARE half is its own signature over another block X (rejected by every correct
+// validator) and whose PREPARE half carries the genuine signatures over Y. The correct leader of view 1 must not count
+// that vote (C04/C08: a proof names one block).
+func (w *world) splitProofScript() {
+	for _, n := range w.honest {
+		w.sync(n, nil)
+	}
+	y := &aBlock{Height: 1, Id: 2999101}
+	x := &aBlock{Height: 1, Id: 2999102, Bad: []uint64{1, 2, 3}}
+	for _, id := range []uint64{1, 2, 3} {
+		w.inject(w.byId[id], &aMsg{Kind: "PP", Ref: aRef{1, worldInst, 1, 0, y.Id}, Snd: aSig{0, true}, Block: y}, "byz-proposal")
+	}
+	for _, id := range []uint64{1, 2, 3} {
+		w.election(w.byId[id], 1, 0)
+	}
+	w.takeV(1, "VC", 2, 1)
+	split := &aProof{PPRef: aRef{1, worldInst, 1, 0, x.Id}, PPSnd: aSig{0, true}, PRef: aRef{2, worldInst, 1, 0, y.Id}, PSnds: []aSig{{1, true}, {2, true}}}
+	w.inject(w.byId[1], &aMsg{Kind: "VC", Vote: &aVote{5, worldInst, 1, 1, split, aSig{0, true}}, Block: x}, "byz-vote-with-split-proof")
+}
+
+// earlyPrepareScript: members 0, 1, 2 move to view 1 (leader 1) while member 3 stays in view 0; member 0 - the leader
+// of view 0 - adopts the NEW_VIEW and PREPAREs in view 1; that PREPARE reaches member 3 before the NEW_VIEW does and
+// must be counted (C11: a correct PREPARE is counted unless the peer's view is higher).
+func (w *world) earlyPrepareScript() {
+	for _, n := range w.honest {
+		w.sync(n, nil)
+	}
+	for _, id := range []uint64{0, 2, 1} {
+		w.election(w.byId[id], 1, 0)
+	}
+	w.takeV(1, "VC", 0, 1)
+	w.takeV(1, "VC", 2, 1)
+	w.takeV(0, "NV", 1, 1)
+	w.takeV(2, "NV", 1, 1)
+	w.takeV(3, "P", 0, 1)
+	w.takeV(3, "P", 2, 1)
+	w.takeV(3, "NV", 1, 1)
+	w.takeV(0, "P", 2, 1)
+	w.takeV(2, "P", 0, 1)
+}
+
 func (w *world) kf1ForkScript() {
 	for _, n := range w.honest {
 		w.sync(n, nil)
